@@ -61,6 +61,8 @@ impl Helper {
                     bincode::deserialize(&bytes).expect("Failed to deserialize our own block");
                 let message = bincode::serialize(&ConsensusMessage::Propose(block))
                     .expect("Failed to serialize block");
+                #[cfg(hotstuff_verif)]
+                crate::verif::emit(format!("\"ev\":\"SyncReply\",\"digest\":\"{}\",\"to\":\"{}\"", crate::verif::hex(&digest.0), crate::verif::hex(&origin.0)));
                 self.network.send(address, Bytes::from(message)).await;
             }
         }
